@@ -41,10 +41,20 @@ let ans_of_string s =
   | ["panic"] -> HPanic
   | _ -> failwith ("answer " ^ s)
 
+(* printing dominates the replay of long histories: memoise the decimal text of the elements *)
+let ztab : (coq_Z, string) Hashtbl.t = Hashtbl.create 4096
+let zs z =
+  match Hashtbl.find_opt ztab z with
+  | Some s -> s
+  | None ->
+    let s = z_to_string z in
+    if Hashtbl.length ztab < 200000 then Hashtbl.add ztab z s;
+    s
+
 let show_arr d =
   match d with
   | [] -> "noslot0"
-  | _ :: t -> String.concat "," (List.map z_to_string t)
+  | _ :: t -> String.concat "," (List.map zs t)
 
 let arr_of_string s =
   if s = "" || s = "-" then [] else List.map z_of_string (split_on ',' s)
